@@ -11,4 +11,4 @@ require (
 
 replace github.com/mandykoh/prism => /repo
 
-replace verif.local/simrt => /verif/sim/simrt
+replace verif.local/simrt => ./simrt
